@@ -501,16 +501,16 @@ Proof.
   - unfold put, set_tbl. cbn [tbl set_ss]. rewrite acked_tset by auto. exact Hna.
 Qed.
 
-Definition ack_facts (c : cfg) (s0 : dstate) (m : dmsg) (x : ip) : Prop :=
+Definition ack_facts (c : cfg) (now : Z) (s0 : dstate) (m : dmsg) (x : ip) : Prop :=
   (exists l0, tget (getcid m) (tbl s0) = Some l0 /\ l_mac l0 = m_chaddr m /\
      ((l_state l0 = SDiscover /\ l_xid l0 = Some (m_xid m) /\ l_offer l0 = Some x) \/
-      (l_state l0 = SAllocated /\ l_ip l0 = Some x))) /\
+      (l_state l0 = SAllocated /\ l_ip l0 = Some x /\ (l_exp l0 <? now)%Z = false))) /\
   asked m = x /\ other_server c m = false.
 
-Definition nak_or_good_ack (c : cfg) (s0 : dstate) (m : dmsg) (s' : dstate) (r : reply) : Prop :=
+Definition nak_or_good_ack (c : cfg) (now : Z) (s0 : dstate) (m : dmsg) (s' : dstate) (r : reply) : Prop :=
   r = mk_reply c RNak m 0 (sess_captured (ss s0) (m_chaddr m)) \/
   exists x, r = mk_reply c RAck m x (sess_captured (ss s0) (m_chaddr m)) /\
-            addr_good c s0 (m_chaddr m) (getcid m) x s' /\ ack_facts c s0 m x.
+            addr_good c s0 (m_chaddr m) (getcid m) x s' /\ ack_facts c now s0 m x.
 
 Lemma inv_update c s m o : Inv c s -> Inv c (set_ss s (dhcp_update (ss s) m o)).
 Proof. intros H. apply inv_set_ss; auto. intros y Hy. apply tracked_dhcp_update. exact Hy. Qed.
@@ -519,7 +519,7 @@ Ltac pinv H := apply pair_equal_spec in H; let a := fresh in let b := fresh in d
 
 Lemma request_ok c now s0 m s' rp :
   Inv c s0 -> handleRequest c now s0 m = (s', rp) ->
-  Inv c s' /\ forall r, rp = Some r -> nak_or_good_ack c s0 m s' r.
+  Inv c s' /\ forall r, rp = Some r -> nak_or_good_ack c now s0 m s' r.
 Proof.
   intros HI. unfold handleRequest.
   set (req0 := match m_req m with Some r => r | None => 0 end).
@@ -562,27 +562,27 @@ Proof.
             taken s1 l req = false ->
             l_mac l = m_chaddr m ->
             ((l_state l = SDiscover /\ l_xid l = Some (m_xid m) /\ l_offer l = Some req) \/
-             (l_state l = SAllocated /\ l_ip l = Some req)) ->
+             (l_state l = SAllocated /\ l_ip l = Some req /\ (l_exp l <? now)%Z = false)) ->
             other_server c m = false ->
             do_ack c now m s2 l = (s'', rp') ->
-            Inv c s'' /\ forall r, rp' = Some r -> nak_or_good_ack c s0 m s'' r).
+            Inv c s'' /\ forall r, rp' = Some r -> nak_or_good_ack c now s0 m s'' r).
   { intros s2 s'' rp' Ht HI2 Tk Hmac Hst Hos Hd. unfold cap in *.
     apply taken_false in Tk as [Ta Ts]. rewrite Hk in Ta. rewrite Hm, Hss in Ts.
     assert (Hst' : (l_state l = SDiscover /\ l_offer l = Some req) \/ (l_state l = SAllocated /\ l_ip l = Some req))
-      by (destruct Hst as [[A [_ B]]|[A B]]; auto).
+      by (destruct Hst as [[A [_ B]]|[A [B _]]]; auto).
     assert (Hin2 : In l (tbl s2)) by (rewrite Ht; exact Hin).
     assert (Ta2 : acked_to_other (tbl s2) (l_cid l) req = false) by (rewrite Ht, Hk; exact Ta).
     destruct (do_ack_ok c now m s2 l req s'' rp' HI2 Hin2 Ta2 Hst' Hd) as [HI' [Hr Ha]].
     split; auto. intros r Hr'. rewrite Hr in Hr'. inversion Hr'; subst r. right. exists req.
     rewrite Hn. split; auto. split.
     - split; [|split; auto].
-      + rewrite <- Hn. destruct Hst as [[_ [_ B]]|[_ B]]; [apply Lo; auto|apply Li; auto].
+      + rewrite <- Hn. destruct Hst as [[_ [_ B]]|[_ [B _]]]; [apply Lo; auto|apply Li; auto].
       + rewrite <- Hk. exact Ha.
     - split; [|split; auto].
       destruct Hfoc as [[E1 E2]|[E1 E2]].
       + subst s1. exists l. split; auto.
       + exfalso. rewrite E1 in Hst. destruct Hst as [[A _]|[A _]]; discriminate. }
-  assert (NAK : forall s2, Inv c s2 -> Inv c s2 /\ forall r, Some (mk_reply c RNak m 0 cap) = Some r -> nak_or_good_ack c s0 m s2 r).
+  assert (NAK : forall s2, Inv c s2 -> Inv c s2 /\ forall r, Some (mk_reply c RNak m 0 cap) = Some r -> nak_or_good_ack c now s0 m s2 r).
   { intros s2 H2. split; auto. intros r Hr. inversion Hr; subst r. left. reflexivity. }
   destruct oper.
   - (* Selecting *)
@@ -600,12 +600,13 @@ Proof.
       * intros H. pinv H. split; [|intros r Hr; discriminate].
         apply inv_update. exact HIp.
     + apply negb_false_iff, N.eqb_eq in SV.
-      destruct (lstate_eqb (l_state l) SFree || taken s1 l req || negb (l_mac l =? m_chaddr m)
+      destruct (lstate_eqb (l_state l) SFree || taken s1 l req
+                || lstate_eqb (l_state l) SAllocated && (l_exp l <? now)%Z || negb (l_mac l =? m_chaddr m)
                 || lstate_eqb (l_state l) SDiscover && (negb (oeqb (l_xid l) (Some (m_xid m))) || negb (oeqb (l_offer l) (Some req)))
                 || lstate_eqb (l_state l) SAllocated && negb (oeqb (l_ip l) (Some req))) eqn:C.
       * intros H. pinv H. apply NAK. exact HI1.
       * apply orb_false_iff in C as [C C5]. apply orb_false_iff in C as [C C4].
-        apply orb_false_iff in C as [C C3]. apply orb_false_iff in C as [C1 C2].
+        apply orb_false_iff in C as [C C3]. apply orb_false_iff in C as [C CE]. apply orb_false_iff in C as [C1 C2].
         intros H. apply (ACK s1 s' rp); auto.
         -- destruct (l_state l) eqn:S; simpl in *; try discriminate.
            ++ left. apply orb_false_iff in C4 as [A B]. apply negb_false_iff in A, B.
@@ -626,29 +627,33 @@ Proof.
   - (* Rebinding *)
     destruct (lstate_eqb (l_state l) SFree && attack_mode c cap).
     + intros H. pinv H. apply NAK. apply inv_update. exact HI1.
-    + destruct (negb (lstate_eqb (l_state l) SAllocated) || taken s1 l req || negb (oeqb (l_ip l) (Some req))
+    + destruct (negb (lstate_eqb (l_state l) SAllocated) || taken s1 l req
+                || lstate_eqb (l_state l) SAllocated && (l_exp l <? now)%Z || negb (oeqb (l_ip l) (Some req))
                 || negb (l_mac l =? m_chaddr m)
                 || negb match l_ip l with Some x => n_contains c cap x | None => false end) eqn:C.
       * intros H. pinv H. apply NAK. apply inv_update. exact HI1.
       * apply orb_false_iff in C as [C C5]. apply orb_false_iff in C as [C C4].
-        apply orb_false_iff in C as [C C3]. apply orb_false_iff in C as [C1 C2].
+        apply orb_false_iff in C as [C C3]. apply orb_false_iff in C as [C CE]. apply orb_false_iff in C as [C1 C2].
         intros H. apply (ACK (set_ss s1 (dhcp_update (ss s1) (m_chaddr m) (Some req))) s' rp); auto.
         -- apply inv_update. exact HI1.
-        -- right. apply negb_false_iff in C1, C3. apply lstate_eqb_eq in C1. apply oeqb_eq in C3. auto.
+        -- right. apply negb_false_iff in C1, C3. apply lstate_eqb_eq in C1. apply oeqb_eq in C3.
+           rewrite C1 in CE. simpl in CE. auto.
         -- unfold other_server. assert (Z0 : sid = 0) by (apply Hnsel; discriminate).
            unfold sid in Z0. destruct (m_sid m) as [v|]; auto. subst v. reflexivity.
   - (* Rebooting *)
     destruct (lstate_eqb (l_state l) SFree && attack_mode c cap).
     + intros H. pinv H. apply NAK. apply inv_update. exact HI1.
-    + destruct (negb (lstate_eqb (l_state l) SAllocated) || taken s1 l req || negb (oeqb (l_ip l) (Some req))
+    + destruct (negb (lstate_eqb (l_state l) SAllocated) || taken s1 l req
+                || lstate_eqb (l_state l) SAllocated && (l_exp l <? now)%Z || negb (oeqb (l_ip l) (Some req))
                 || negb (l_mac l =? m_chaddr m)
                 || negb match l_ip l with Some x => n_contains c cap x | None => false end) eqn:C.
       * intros H. pinv H. apply NAK. apply inv_update. exact HI1.
       * apply orb_false_iff in C as [C C5]. apply orb_false_iff in C as [C C4].
-        apply orb_false_iff in C as [C C3]. apply orb_false_iff in C as [C1 C2].
+        apply orb_false_iff in C as [C C3]. apply orb_false_iff in C as [C CE]. apply orb_false_iff in C as [C1 C2].
         intros H. apply (ACK (set_ss s1 (dhcp_update (ss s1) (m_chaddr m) (Some req))) s' rp); auto.
         -- apply inv_update. exact HI1.
-        -- right. apply negb_false_iff in C1, C3. apply lstate_eqb_eq in C1. apply oeqb_eq in C3. auto.
+        -- right. apply negb_false_iff in C1, C3. apply lstate_eqb_eq in C1. apply oeqb_eq in C3.
+           rewrite C1 in CE. simpl in CE. auto.
         -- unfold other_server. assert (Z0 : sid = 0) by (apply Hnsel; discriminate).
            unfold sid in Z0. destruct (m_sid m) as [v|]; auto. subst v. reflexivity.
 Qed.
@@ -690,7 +695,7 @@ Definition reply_good (c : cfg) (s : dstate) (o : op) (s' : dstate) (r : reply) 
     let s0 := parse_effect c s m in
     ((exists x, r = mk_reply c ROffer m x (sess_captured (ss s0) (m_chaddr m)) /\
                 addr_good c s0 (m_chaddr m) (getcid m) x s')
-     \/ (is_request o = true /\ nak_or_good_ack c s0 m s' r)).
+     \/ (is_request o = true /\ nak_or_good_ack c (op_now o) s0 m s' r)).
 
 Lemma step_ok c ch s o s' rp :
   Inv c s -> step c ch s o = (s', rp) ->
@@ -804,3 +809,13 @@ Proof.
   rewrite E1, E2. simpl.
   destruct T as [T|T]; rewrite T; [reflexivity|]. rewrite N.eqb_refl. reflexivity.
 Qed.
+
+(* "Still acknowledged" read with the clock (Allocated AND expiry not before now) is weaker than the
+   state reading used above: the invariant also covers expired, not yet freed leases. *)
+Definition Uniq_at (now : Z) (t : list lease) : Prop :=
+  forall l1 l2 x, In l1 t -> In l2 t ->
+    l_state l1 = SAllocated -> l_state l2 = SAllocated ->
+    (l_exp l1 <? now)%Z = false -> (l_exp l2 <? now)%Z = false ->
+    l_ip l1 = Some x -> l_ip l2 = Some x -> l_cid l1 = l_cid l2.
+Theorem uniq_at_all : forall c h now, Uniq_at now (tbl (fst (run c (init c) h))).
+Proof. intros c h now l1 l2 x H1 H2 S1 S2 _ _ I1 I2. apply (uniq_all c h l1 l2 x); auto. Qed.
